@@ -400,7 +400,9 @@ fn cross_and_padding(run: &mut Run, rng: &mut Rng, prof: &str, i: usize) {
     // (a) wrong protocol, A only
     ops.push(Op::UnprotectRtp(A, Src::Slot(rtcp_slot)));
     ops.push(Op::UnprotectRtcp(A, Src::Slot(0)));
-    // (b) authentic, inconsistent padding: P bit set and last byte 0 / larger than the body / empty body
+    // (b) authentic, inconsistent padding: P bit set and last byte 0 / larger than the body / empty body —
+    // after 30 s, so that a refreshed time stamp shows
+    ops.push(Op::Tick(30));
     for (seq, body) in [(1u16, vec![9u8, 9, 9, 0]), (2, vec![9, 9, 200]), (3, vec![]), (40000, vec![1, 2, 5])] {
         let mut plain = vec![0xa0, 96];
         plain.extend(seq.to_be_bytes()); plain.extend(7u32.to_be_bytes()); plain.extend(ssrc.to_be_bytes());
@@ -428,6 +430,57 @@ fn at_the_cap(run: &mut Run, rng: &mut Rng, prof: &str, i: usize) {
     for n in 0..4u32 { forged(&mut ops, true, rtcp_new, Mut::RtcpSsrc(0x7100_0000 + n)); forged(&mut ops, true, rtcp_new, Mut::Flip(66 + n as usize)); }
     ops.push(Op::ProtectRtp(S, PktSpec::simple(3, 0x5000, vec![9]))); both(&mut ops, false, slot);
     emit(run, "forge", &Case { ops, kind: "at-the-context-cap" });
+}
+
+/// Full table × idle contexts × packets that get REJECTED: the receivers hold G (ROC 1) and 1023 other
+/// streams (1024 contexts), then everything idles for `idle` seconds (`idle_part` of the 1023 were created
+/// `idle` s ago, the rest 30 s later). Forged packets with fresh SSRCs (RTP and RTCP) and forged packets of a
+/// known SSRC then reach A only. Nothing may be evicted, inserted or re-stamped by them; G resumes on A and B.
+fn cap_idle_forged(run: &mut Run, rng: &mut Rng, prof: &str, i: usize, idle_part: u32) {
+    let mut ops = new_three(rng, i, prof);
+    let g = 0x0a0b_0c0du32;
+    let mut slot = 0;
+    for seq in [65000u16, 65500, 100, 200] { ops.push(Op::ProtectRtp(S, PktSpec::simple(seq, g, vec![seq as u8, 2, 3]))); both(&mut ops, false, slot); slot += 1; }
+    let g_last = slot - 1;
+    ops.push(Op::ProtectRtcp(S, Src::Lit(rtcp_packet(rng, g, 12)))); both(&mut ops, true, slot); let g_rtcp = slot; slot += 1;
+    ops.push(Op::Fill(S, A, 0x5000, idle_part)); ops.push(Op::Fill(S, B, 0x5000, idle_part));
+    if idle_part < 1023 {
+        ops.push(Op::Tick(30));
+        ops.push(Op::Fill(S, A, 0x5000 + idle_part, 1023 - idle_part)); ops.push(Op::Fill(S, B, 0x5000 + idle_part, 1023 - idle_part));
+        ops.push(Op::Tick(31));
+    } else { ops.push(Op::Tick(61)); }
+    for n in 0..3u32 {
+        forged(&mut ops, false, g_last, Mut::Ssrc(0x6000_0000 + n));
+        forged(&mut ops, true, g_rtcp, Mut::RtcpSsrc(0x6100_0000 + n));
+        forged(&mut ops, false, g_last, Mut::Flip(100 + n as usize));
+    }
+    for seq in [300u16, 301] { ops.push(Op::ProtectRtp(S, PktSpec::simple(seq, g, vec![seq as u8, 7]))); both(&mut ops, false, slot); slot += 1; }
+    // a new genuine stream afterwards: accepted on both (idle contexts make room)
+    ops.push(Op::ProtectRtp(S, PktSpec::simple(1, 0x9999, vec![8, 8]))); both(&mut ops, false, slot);
+    emit(run, "forge", &Case { ops, kind: "full-table-idle-forged" });
+}
+
+/// AUTHENTIC but rejected packets (valid tag, inconsistent padding) after time has passed, table above the
+/// high-water mark: they must not refresh the context they address. G (ROC 1) and 33 other streams; 30 s
+/// later the sender uses G (packet lost) and an authentic malformed G packet reaches A only; 31 s later
+/// another stream runs the eviction on A and B; then G resumes — A and B must agree.
+fn authentic_reject_does_not_stamp(run: &mut Run, rng: &mut Rng, prof: &str, i: usize) {
+    let mut ops = new_three(rng, i, prof);
+    let g = 0x0a0b_0c0du32;
+    let mut slot = 0;
+    for k in 0..33u32 { ops.push(Op::ProtectRtp(S, PktSpec::simple(5, 0x2000 + k, vec![1, 2, 3]))); both(&mut ops, false, slot); slot += 1; }
+    for seq in [65000u16, 65500, 100, 200] { ops.push(Op::ProtectRtp(S, PktSpec::simple(seq, g, vec![seq as u8, 2, 3]))); both(&mut ops, false, slot); slot += 1; }
+    ops.push(Op::Tick(30));
+    ops.push(Op::ProtectRtp(S, PktSpec::simple(250, g, vec![1]))); slot += 1;                 // lost; keeps the sender's context alive
+    let mut plain = vec![0xa0, 96]; plain.extend(251u16.to_be_bytes()); plain.extend(7u32.to_be_bytes()); plain.extend(g.to_be_bytes()); plain.extend([9u8, 9, 9, 0]);
+    ops.push(Op::ExtRaw(S, 1, plain)); ops.push(Op::UnprotectRtp(A, Src::Slot(slot))); slot += 1;
+    ops.push(Op::Tick(31));
+    ops.push(Op::ProtectRtp(S, PktSpec::simple(6, 0x2000, vec![4]))); both(&mut ops, false, slot); slot += 1;
+    ops.push(Op::Snap(A)); ops.push(Op::Snap(B));
+    for seq in [300u16, 301] { ops.push(Op::ProtectRtp(S, PktSpec::simple(seq, g, vec![seq as u8, 7]))); both(&mut ops, false, slot); slot += 1; }
+    ops.push(Op::Snap(A)); ops.push(Op::Snap(B));
+    let _ = rng;
+    emit(run, "evict", &Case { ops, kind: "authentic-reject-after-time" });
 }
 
 /// the eviction rule itself on genuine SSRC churn (model correspondence of the table logic)
@@ -481,6 +534,9 @@ pub fn run(args: &Args) {
         known_ssrc_forgery_when_stale(&mut run, &mut rng, prof, pi, true);
         cross_and_padding(&mut run, &mut rng, prof, pi);
         at_the_cap(&mut run, &mut rng, prof, pi);
+        cap_idle_forged(&mut run, &mut rng, prof, pi, 1023);
+        if pi % 2 == 0 || t { cap_idle_forged(&mut run, &mut rng, prof, pi, 500); }
+        authentic_reject_does_not_stamp(&mut run, &mut rng, prof, pi);
     }
     let ni = if t { 30000 } else { 600 };
     for i in 0..ni { let c = interleaved(&mut rng, i, PROFILES[i % 4]); emit(&mut run, "forge", &c); }
